@@ -175,29 +175,31 @@ macro_rules! gen_term {
                 fn from_term<U: Term>(term: U) -> Self {
                     match term.kind() {
                         TermKind::Iri => {
-                            // the following is safe because we checked term.kind()
-                            let iri = unsafe { term.iri().unwrap_unchecked() };
+                            // NB: Term is a safe trait, so its contract can not be relied upon for memory safety
+                            let iri = term.iri().expect("Term::iri inconsistent with Term::kind");
                             $type_name::Iri(iri.as_ref().map_unchecked(Into::into))
                         }
                         TermKind::Literal => {
-                            // the following is safe because we checked term.kind()
-                            let lit =
-                                unsafe { GenericLiteral::try_from_term(term).unwrap_unchecked() };
+                            let lit = GenericLiteral::try_from_term(term)
+                                .expect("Term::is_literal inconsistent with Term::kind");
                             $type_name::Literal(lit)
                         }
                         TermKind::BlankNode => {
-                            // the following is safe because we checked term.kind()
-                            let id = unsafe { term.bnode_id().unwrap_unchecked() };
+                            let id = term
+                                .bnode_id()
+                                .expect("Term::bnode_id inconsistent with Term::kind");
                             $type_name::BlankNode(id.as_ref().map_unchecked(Into::into))
                         }
                         TermKind::Triple => {
-                            // the following is safe because we checked term.kind()
-                            let spo = unsafe { term.triple().unwrap_unchecked() };
+                            let spo = term
+                                .triple()
+                                .expect("Term::triple inconsistent with Term::kind");
                             $type_name::Triple(W::new(spo.map(Self::from_term)))
                         }
                         TermKind::Variable => {
-                            // the following is safe because we checked term.kind()
-                            let name = unsafe { term.variable().unwrap_unchecked() };
+                            let name = term
+                                .variable()
+                                .expect("Term::variable inconsistent with Term::kind");
                             $type_name::Variable(name.as_ref().map_unchecked(Into::into))
                         }
                     }
